@@ -10,15 +10,17 @@ LEVEL = "exploration"
 SHARDS = {"quick": 8, "thorough": 16}
 TIMEOUT = {"quick": 180, "thorough": 1500}
 RULE = ("scenarios = one future with 2-4 threads: an executor (FutureResult.execute called directly, or a real pool "
-        "worker), a registrar doing 0-3 sequential set_callback registrations (callbacks that return, raise, or have "
+        "worker), a registrar doing 0-3 sequential set_callback registrations and sometimes a second registering thread "
+        "(callbacks that return, raise, call sys.exit(), or have "
         "the wrong arity) before / overlapping / after completion, 0-2 observers calling done() and result(timeout); "
         "tasks returning a fresh object or a falsy value, or raising one of 26 exception classes; schedules = 10 us "
         "switch interval, random line-level yields, and a stall sweep parking one thread role at one line of execute / "
         "set_callback / __notify / EventData.* per run. distinct = distinct interleaving signatures of the boundary log; "
         "non-trivial = the task body ran and at least one registration or observation was judged.")
 ASSUMPTIONS = [
-    "registrations come from one registrar thread (the future has a single callback slot: a registration superseded by "
-    "a later one that began before execute returned may legitimately never run; it must never run twice)",
+    "the future has a single callback slot until it completes: a registration replaced by another one (from the same "
+    "or from a second registering thread) that began before completion was published may legitimately never run; it "
+    "must never run twice, and every registration made after completion runs exactly once, inside its own call",
     "in pool mode the return of execute is bounded above by the queue's task_done event",
 ]
 TECHNIQUE = "recorded boundary history + offline completion-protocol checker under sys.monitoring delay injection (runtime monitoring)"
